@@ -414,9 +414,74 @@ func (g *sheetGen) declaration() string {
 	return name + ":" + []string{" ", "", "  "}[r.Intn(3)] + val + imp
 }
 
+// a run of declarations of one box family (shorthand and sides interleaved)
+func (g *sheetGen) boxCluster(indent string) string {
+	r := g.r
+	var sb strings.Builder
+	fam := []string{"margin", "padding", "inset", "radius"}[r.Intn(4)]
+	vals := []string{"0", "1px", "2px", "0px", "1em", "10%", "1vw", "auto", "2vw", "calc(1px + 1px)", "var(--v)", "3Q"}
+	val := func() string {
+		v := vals[r.Intn(len(vals))]
+		if v == "auto" && (fam == "padding" || fam == "radius") {
+			v = "3px"
+		}
+		return v
+	}
+	g.note("box-cluster")
+	for k := r.Range(2, 6); k > 0; k-- {
+		imp := ""
+		if r.Chance(12) {
+			imp = " !important"
+		}
+		switch fam {
+		case "radius":
+			if r.Chance(35) {
+				var vs []string
+				for j := r.Range(1, 4); j > 0; j-- {
+					vs = append(vs, val())
+				}
+				v := strings.Join(vs, " ")
+				if r.Chance(25) {
+					v += " / " + val()
+				}
+				sb.WriteString(indent + "border-radius: " + v + imp + ";\n")
+			} else {
+				c := []string{"top-left", "top-right", "bottom-right", "bottom-left"}[r.Intn(4)]
+				v := val()
+				if r.Chance(25) {
+					v += " " + val()
+				}
+				sb.WriteString(indent + "border-" + c + "-radius: " + v + imp + ";\n")
+			}
+		default:
+			if r.Chance(35) {
+				var vs []string
+				for j := r.Range(1, 4); j > 0; j-- {
+					vs = append(vs, val())
+				}
+				sb.WriteString(indent + fam + ": " + strings.Join(vs, " ") + imp + ";\n")
+			} else {
+				side := []string{"top", "right", "bottom", "left"}[r.Intn(4)]
+				name := fam + "-" + side
+				if fam == "inset" {
+					name = side
+				}
+				sb.WriteString(indent + name + ": " + val() + imp + ";\n")
+			}
+		}
+		if r.Chance(10) {
+			sb.WriteString(indent + "color: red;\n")
+		}
+	}
+	return sb.String()
+}
+
 func (g *sheetGen) declBlock(nestDepth int, indent string) string {
 	r := g.r
 	var sb strings.Builder
+	if r.Chance(22) {
+		sb.WriteString(g.boxCluster(indent))
+	}
 	n := r.Range(0, 5)
 	if r.Chance(25) {
 		n += 3
@@ -427,6 +492,15 @@ func (g *sheetGen) declBlock(nestDepth int, indent string) string {
 		if prev != "" && r.Chance(12) {
 			d = prev // exact duplicate declaration
 			g.note("dup-decl")
+		} else if prev != "" && r.Chance(8) {
+			// the same declaration with the other importance
+			g.note("dup-decl-other-importance")
+			if i := strings.Index(prev, "!"); i >= 0 {
+				d = strings.TrimRight(prev[:i], " ")
+			} else {
+				// important copy followed by the normal one again
+				d = prev + " !important;\n" + indent + prev
+			}
 		}
 		prev = d
 		sb.WriteString(indent + d)
